@@ -10,6 +10,8 @@ RULES = {"C03.a", "C03.b", "C03.c", "C03.d", "C03.e", "C03.f", "C03.g", "C03.h"}
 
 
 def check(ctx):
+    from .common import compiled_scanner_is_frozen
+    compiled_scanner_is_frozen(ctx, "C02.m")   # nothing edits a compiled scanner after the pipeline produced it (closed writer sets)
     minimizer_rules.analyze(ctx, RULES)
     # the property is observed on scanners obtained through build(): the cache must hand back the configuration's own compilation
     from . import adaptors
